@@ -294,6 +294,7 @@ def main(rec):
             jobs.append(sp)
         # round trip of the plain output
         jobs.append(roundtrip_spec(dsc, rr))
+        jobs.append(roundtrip_spec(dsc, rr, edit=common.rng("c12edit", name)))
     res = pool.run_cases("vf.shroudrun", jobs, timeout=300)
     second = []
     for sp, rr in zip(jobs, res):
@@ -514,13 +515,56 @@ def classify(route, want, got, kept_default, routes):
     return "line-altered:%s" % route
 
 
-def roundtrip_spec(dsc, rr):
-    """Feed every generated file back as a splicer file of its language."""
+def edit_blocks(text, lang, r, editable, tag):
+    """A hand-edited copy of a generated file: some of the blocks whose body is the generated default get a
+    new body (first line unique per block occurrence).  Returns (text, number of blocks edited)."""
+    out = []
+    cur = None
+    n = 0
+    for ln in text.split("\n"):
+        if cur is None:
+            out.append(ln)
+            m = BEGIN_RE.search(ln)
+            if m:
+                cur = m.group(1)
+                skip = False
+                if cur in editable and r.random() < 0.4:
+                    n += 1
+                    body = gen_body(r, lang if lang in PLAUSIBLE else "c")[:3]
+                    out.append("vf_edit_%s_%d = 1" % (tag, n))
+                    out.extend(body)
+                    skip = True
+            continue
+        m2 = END_RE.search(ln)
+        if m2 and m2.group(1) == cur:
+            out.append(ln)
+            cur = None
+            continue
+        if not skip:
+            out.append(ln)
+    return "\n".join(out), n
+
+
+def roundtrip_spec(dsc, rr, edit=None):
+    """Feed every generated file back as a splicer file of its language (edit: rng -> the files are hand-edited
+    inside some blocks first)."""
     name, d, argv, links_, yrel = dsc
     dd = copy.deepcopy(d)
     files = {}
     spl = {}
-    for rel, text in rr["outputs"].items():
+    outputs = dict(rr["outputs"])
+    nedit = 0
+    if edit is not None:
+        mon = observed_blocks(rr)
+        for k_, rel in enumerate(sorted(outputs)):
+            text = outputs[rel]
+            if rel.endswith((".json", ".log", ".yaml", ".txt")) or "splicer begin" not in text:
+                continue
+            lang = lang_of_file(rel)
+            editable = {n for n, evs in mon.get(lang, {}).items() if evs and all(e["source"] in ("default", "none") for e in evs)}
+            outputs[rel], k = edit_blocks(text, lang, edit, editable, "f%d" % k_)
+            nedit += k
+    for rel, text in outputs.items():
         if rel.endswith((".json", ".log", ".yaml", ".txt")) or "splicer begin" not in text:
             continue
         lang = lang_of_file(rel)
@@ -548,8 +592,11 @@ def roundtrip_spec(dsc, rr):
     from .c16 import decl_entries
     sp["template_classes"] = sorted({m.group(1) for e in decl_entries(d)
                                      for m in [re.search(r"template\s*<[^>]*>\s*class\s+(\w+)", e["decl"])] if m})
-    sp["before"] = {rel: extract_blocks(text) for rel, text in rr["outputs"].items()
+    sp["before"] = {rel: extract_blocks(text) for rel, text in outputs.items()
                     if not rel.endswith((".json", ".log", ".yaml", ".txt"))}
+    sp["edited"] = nedit
+    if edit is not None:
+        sp["name"] = sp.get("name", name) + "+edited"
     return sp
 
 
@@ -591,8 +638,9 @@ def judge_roundtrip(rec, sp, rr):
                               "%s: %s block %s changes when the generated file is fed back\n before %r\n after  %r" % (
                                   sp["name"], rel, name, w, g), sp)
     rec.count("roundtrip_blocks_checked", n)
+    rec.count("roundtrip_hand_edited_blocks", sp.get("edited", 0))
     rec.count("user_bodies_checked", n)
-    rec.case(key="rt|%s" % sp["name"] if n else None, sample={"roundtrip": sp["name"], "blocks": n})
+    rec.case(key="rt|%s" % sp["name"] if n else None, sample={"roundtrip": sp["name"], "blocks": n, "hand_edited": sp.get("edited", 0)})
 
 
 def replay(bundle):
